@@ -23,7 +23,7 @@ R14.6 report rows take their value from the accessor the label names.
 Not decided: the totals on actual inputs (arithmetic over run-time streams)."""
 import re
 
-from ..thir import Evaluator, Bits, Sym, Agg, Cond, ckey, vkey, Unsupported, TB
+from ..thir import Evaluator, Bits, Sym, Agg, Cond, Obj, ckey, vkey, Unsupported, TB
 from ..mir import show_origin, callee_of, Body, inline_fn, path_count_range, op_place
 from ..emit import first_literal, macro_source
 
@@ -531,8 +531,9 @@ def r143(ctx, rep, f, ev, cg, reach):
     rep.check(any("rdh_slice" in s and "iter(" in s for s in src) and not any(x in chain for x in ("skip", "take", "step_by", "filter", "rev")), "R14.3", "R14.3|all-rdhs",
               "the statistics loop visits every RDH of the batch (rdh_slice().iter())", W, "loop source %s adaptors %s" % (src, chain))
     ev.watch = lambda c: "flume::Sender" in c
-    recs = [o for o in _recs(ev, "fastpasta::stats::collect_its_stats", [Sym("rdh"), Sym("ch")]) if "call" in o]
-    exp = "StatType::LayerStaveSeen(layer=sym(cast(sym(BitAnd(sym(Shr(sym(rdh.rdh0.fee_id.0),0xc)),0x7)) as u8)),stave=sym(cast(sym(BitAnd(sym(rdh.rdh0.fee_id.0),0x3f)) as u8)))"
+    # evaluated on the wire image of the RDH: fee_id is bytes 2..3, so layer = R[30:28] and stave = R[21:16] however the masks and shifts are written
+    recs = [o for o in _recs(ev, "fastpasta::stats::collect_its_stats", [Obj("R", 0, "alice_protocol_reader::rdh::rdh_cru::RdhCru"), Sym("ch")], follow=lambda c: c.startswith("fastpasta::")) if "call" in o]
+    exp = "StatType::LayerStaveSeen(layer={b0..2=R[30:28]},stave={b0..5=R[21:16]})"
     rep.check(len(recs) == 1 and recs[0]["args"][1] == exp and not recs[0]["guard"], "R14.3", "R14.3|layer-stave", "LayerStaveSeen{layer = fee_id[14:12], stave = fee_id[5:0]} per RDH", "fastpasta/src/stats.rs",
               "collect_its_stats sends %s" % [o["args"][1] for o in recs])
     ev.watch = None
